@@ -107,7 +107,7 @@ def gen(rng, tier):
                 ids += [f"nosuchID{i}" for i in range(len(miss))]
                 rng.shuffle(ids)
                 ids = ids or ["snpD"]
-            if rng.random() < 0.2:
+            if rng.random() < (0.45 if k == "ld" else 0.2):
                 ids.append(ids[0])  # a duplicate
         c["ids"] = ids
         smp = None
